@@ -149,12 +149,59 @@ def check(prog, rep, tier):
         rep.ok("C10.limit-fixed", "only __init__ writes _queue_size")
     else:
         rep.bad("C10.limit-fixed", CTX, f"writers {sorted(writers)}", f"max_queue_size is written by {sorted(writers)}", prog.cls(CTX).module.relpath + ":1")
+    restore_keeps_queue(prog, rep)
+
+
+def restore_keeps_queue(prog, rep):
+    """building or restoring a rotating filter never drops sub-filters that fit: a removal from the sub-filter list inside the constructor
+    or an alternate constructor is accepted only as the trimming of an over-long saved queue - `del xs[:max(len(xs) - limit, 0)]`, or a
+    removal made where the path has established len(xs) > limit.  (A bare `len(xs) - limit` as a slice stop is negative for a queue
+    shorter than the limit, and a negative stop counts from the END: the oldest filters of a legitimate queue are deleted.)"""
+    rep.rule("C10.restore-keeps-queue", "constructors remove sub-filters only as the trimming of an over-long saved queue", floor=2)
+    K = prog.cls(CTX)
+    names = ["__init__"] + sorted({m.src_name for k_ in K.mro() for m in k_.methods.values() if m.kind == "classmethod"})
+    for mn in names:
+        f = K.find_method(mn)
+        if f is None:
+            continue
+        bad = None
+        n = 0
+        for p in paths(prog, CTX, f, inline="deep"):
+            if p.exit[0] != "return":
+                continue
+            n += 1
+            lists = {strip_epochs(e.value) for e in p.events if e.kind == "setfield" and e.name == "_blooms"} | {BLOOMS}
+            for e in p.events:
+                if e.kind != "call" or e.d.get("recv") is None or e.target is not None:
+                    continue
+                r = strip_epochs(e.recv)
+                if not (r in lists or (r[0] == "f" and r[2] == "_blooms")) or e.name not in ("pop", "__delitem__", "remove", "clear"):
+                    continue
+                ln = ("call", ("g", "len"), (r,), ())
+                limits = [("f", SELF, "_queue_size", 0), ("p", "max_queue_size")]
+                over = any(path_orderings([strip_epochs(c) for c in conds_at(p, e)], ln, q) <= {GT} for q in limits)
+                a = strip_epochs(e.args[0]) if e.args else None
+                clamp = a is not None and a[0] == "slc" and a[1] in (C(None), C(0)) and a[3] in (C(None), C(1)) and any(
+                    canon(a[2]) == canon(("call", ("g", "max"), (("bin", "-", ln, q), C(0)), ())) for q in limits)
+                if not (over or clamp):
+                    bad = bad or e
+        if bad is not None:
+            rep.bad("C10.restore-keeps-queue", f"{CTX}.{mn}", f"{bad.name} on the sub-filter list",
+                    f"{mn} removes sub-filters from the list it has just built or restored ({bad.brief()[:90]}) on a path that has not established that the list is longer "
+                    "than max_queue_size, and not through a stop clamped at 0: a restored queue that fits loses filters (a slice stop of len - limit is negative for a short "
+                    "queue and then counts from the end)", bad.where())
+        elif n:
+            rep.ok("C10.restore-keeps-queue", f"{CTX}.{mn}: no sub-filter is dropped while building / restoring")
 
 
 from ..selftest import Mutant, del_stmt, insert_stmt, replace_expr, replace_stmt, swap_cmp
 
 _E = "blooms/expandingbloom.py"
 MUTANTS = [
+    Mutant("restored queue trimmed with a stop that is negative for a short queue", _E,
+           insert_stmt("RotatingBloomFilter", "frombytes", "del blm._blooms[: len(blm._blooms) - blm._queue_size]", before="return blm"), rule="C10.restore-keeps-queue"),
+    Mutant("restored queue trimmed with the stop clamped at 0 (a queue that fits is kept)", _E,
+           insert_stmt("RotatingBloomFilter", "frombytes", "del blm._blooms[: max(len(blm._blooms) - blm._queue_size, 0)]", before="return blm"), expect="silent"),
     Mutant("drop the pop(0) of the ready-and-full row", _E, del_stmt("RotatingBloomFilter", "__rotate_bloom_filter", "blm = self._blooms.pop(0)", nth=1), rule="C10.rotation"),
     Mutant("pop(0) -> pop()", _E, replace_expr("RotatingBloomFilter", "__rotate_bloom_filter", "self._blooms.pop(0)", "self._blooms.pop()"), rule="C10.rotation"),
     Mutant("forced push without room forgets to append", _E, del_stmt("RotatingBloomFilter", "__rotate_bloom_filter", "self.__add_bloom_filter()", nth=1), rule="C10.rotation"),
